@@ -49,6 +49,10 @@ impl LiveAgent {
     /// no graceful shutdown (the foca loop alone takes 5 s to leave the cluster): trip the tripwire and
     /// let the caller drop the runtime
     pub async fn abandon(mut self) {
+        self.abandon_in_place().await
+    }
+
+    pub async fn abandon_in_place(&mut self) {
         let _ = self.tw_tx.send(()).await;
         if let Some(w) = self.tw_worker.take() {
             w.await;
